@@ -275,6 +275,7 @@ struct Tool {
     if (p.alloc_stride > 0 && r.chance(0.3)) { int ss[2] = {40, 400}; p.stall_s = ss[r.below(2)]; }
     if (r.chance(0.3)) { p.nmol = 4 + (int)r.below(5); p.sparse_mask = (long)(r.next() & 0xfff); if (r.chance(0.3)) p.sparse_mask = 0xaaa; }
     c05tool::tool_generate(p, r, tier);
+    if (!p.lattice && r.chance(0.3)) { p.top_fmt = 1 + (int)r.below(3); if (p.top_fmt == 3 && p.fmt == 3) p.top_fmt = 1; }  // xyz has no box: not for both files
     p.pick_strategy(r);
     return p;
   }
@@ -283,7 +284,7 @@ struct Tool {
     js::Value v = js::Value::obj();
     p.base_to_json(v);
     v.set("tool", c05tool::engine_name).set("N", p.N).set("F", p.F).set("first_frame", p.first_frame).set("nframes", p.nframes)
-     .set("case_seed", (long long)p.case_seed).set("nmol", p.nmol).set("chain", p.chain).set("fmt", p.fmt).set("variant", p.variant)
+     .set("case_seed", (long long)p.case_seed).set("nmol", p.nmol).set("chain", p.chain).set("fmt", p.fmt).set("top_fmt", p.top_fmt).set("variant", p.variant)
      .set("block", p.block).set("vol_jitter", p.vol_jitter).set("alloc_stride", p.alloc_stride).set("stall_s", p.stall_s).set("sparse_mask", p.sparse_mask).set("lattice", p.lattice).set("variant_meaning", c05tool::tool_variant_json(p));
     return v;
   }
@@ -291,7 +292,7 @@ struct Tool {
     Plan p;
     p.base_from_json(v);
     p.N = (int)v.num("N", 2); p.F = (int)v.num("F", 1); p.first_frame = (long)v.num("first_frame", -1); p.nframes = (long)v.num("nframes", -1);
-    p.case_seed = (uint64_t)v.num("case_seed", 0); p.nmol = (int)v.num("nmol", 4); p.chain = (int)v.num("chain", 2); p.fmt = (int)v.num("fmt", 0);
+    p.case_seed = (uint64_t)v.num("case_seed", 0); p.nmol = (int)v.num("nmol", 4); p.chain = (int)v.num("chain", 2); p.fmt = (int)v.num("fmt", 0); p.top_fmt = (int)v.num("top_fmt", 0);
     p.variant = (int)v.num("variant", 0); p.block = (int)v.num("block", 0); p.vol_jitter = (int)v.num("vol_jitter", 0);
     p.alloc_stride = (long)v.num("alloc_stride", 0);
     p.stall_s = (int)v.num("stall_s", 0);
@@ -314,6 +315,7 @@ struct Tool {
     if (p.stall_s > 0) { Plan q = p; q.stall_s = 0; out.push_back(q); }
     if (p.alloc_stride > 0) { Plan q = p; q.alloc_stride = 0; q.stall_s = 0; out.push_back(q); q = p; q.alloc_stride = p.alloc_stride * 4; out.push_back(q); }
     if (p.fmt && !p.lattice) { Plan q = p; q.fmt = 0; out.push_back(q); }
+    if (p.top_fmt) { Plan q = p; q.top_fmt = 0; out.push_back(q); }
     for (int b = 0; b < 8; b++) if (p.variant & (1 << b)) { Plan q = p; q.variant &= ~(1 << b); out.push_back(q); }
     if (p.strat_type != sim::Strategy::RW) { Plan q = p; q.strat_type = sim::Strategy::RW; out.push_back(q); }
     return out;
@@ -371,6 +373,7 @@ struct Tool {
     if (ref.exit_code == 0 && !ref.files.empty()) {
       static const char *fmt_names[5] = {"lammps_dump", "gro", "pdb", "xyz", "dlpoly_history"};
       rep.counters[std::string("probe.reader_") + fmt_names[plan.fmt >= 0 && plan.fmt < 5 ? plan.fmt : 0]] = 1;
+      for (auto &a : c.args) if (a.find("/conf.") != std::string::npos) rep.counters["probe.topology_from_" + a.substr(a.rfind('.') + 1)] = 1;
     }
     if (plan.block > 0 && ref.files.size() > 2) rep.counters["probe.block_files_written"] = 1;
     for (auto &kv : ref.files) if (kv.first.compare(0, 5, "A-A-A") == 0) rep.counters["probe.threebody_distribution_compared"] = 1;
@@ -457,6 +460,20 @@ std::string fmt_double(double v) {
 const char *trj_file(const Plan &p) {
   static const char *names[5] = {"traj.vdump", "traj.vgro", "traj.vpdb", "traj.vxyz", "traj.dlph"};
   return names[p.fmt >= 0 && p.fmt < 5 ? p.fmt : 0];
+}
+
+std::string add_topology(const Plan &p, Case &c, bool two_types, double box, bool need_xml) {
+  int tf = need_xml ? 0 : p.top_fmt;
+  if (tf == 0) { c.files["topol.xml"] = gen_topology_xml(p, two_types, box); return "topol.xml"; }
+  static const char *names[4] = {"topol.xml", "conf.gro", "conf.pdb", "conf.xyz"};
+  Plan q = p;  // the first frame of the trajectory in the topology's format
+  q.F = 1;
+  q.fmt = tf;
+  bool saved = g_perturb;
+  g_perturb = false;
+  c.files[names[tf]] = gen_trajectory(q, box, p.nmol * p.chain);
+  g_perturb = saved;
+  return names[tf];
 }
 
 std::string gen_topology_xml(const Plan &p, bool two_types, double box) {
